@@ -12,7 +12,7 @@ func FilterTG(p *prog.Program, log []Rec) []Rec {
 		switch r.Ev {
 		case "init", "started", "req", "ans", "again", "error", "cease", "fin", "wait", "timeout", "blocked",
 			"observed", "deliver", "deliverx", "delivered", "cancel", "infra", "other", "cand", "ansc", "crash", "determination",
-			"waitret", "tracerdone", "subclosed", "census", "roundtrip":
+			"waitret", "tracerdone", "subclosed", "census", "roundtrip", "postdeliver":
 			out = append(out, r)
 		case "visit":
 			// arrival at intermediate catch events only (boundary listeners
